@@ -32,9 +32,18 @@ pub enum Front {
     MapExtendStreamUnion,
     MapFromIter,
     FstFromIterMap,
+    // ---- usage variants: the same accepted sequence, reached through a
+    // ---- builder that is kept in use after rejected calls / fed by several
+    // ---- bulk calls on an already populated builder
+    RawInsertNoisy,
+    MapInsertNoisy,
+    SetInsertNoisy,
+    RawMixedBulk,
+    MapMixedBulk,
+    SetMixedBulk,
 }
 
-pub const ALL_FRONTS: [Front; 17] = [
+pub const ALL_FRONTS: [Front; 23] = [
     Front::RawInsert,
     Front::RawAdd,
     Front::RawExtendIter,
@@ -52,6 +61,12 @@ pub const ALL_FRONTS: [Front; 17] = [
     Front::MapExtendStreamUnion,
     Front::MapFromIter,
     Front::FstFromIterMap,
+    Front::RawInsertNoisy,
+    Front::MapInsertNoisy,
+    Front::SetInsertNoisy,
+    Front::RawMixedBulk,
+    Front::MapMixedBulk,
+    Front::SetMixedBulk,
 ];
 
 impl Front {
@@ -66,6 +81,8 @@ impl Front {
                 | Front::SetExtendStreamUnion
                 | Front::SetFromIter
                 | Front::FstFromIterSet
+                | Front::SetInsertNoisy
+                | Front::SetMixedBulk
         )
     }
     /// Front ends on which the cache geometry can be chosen (hook H1).
@@ -77,6 +94,8 @@ impl Front {
                 | Front::RawExtendIter
                 | Front::RawExtendStreamVec
                 | Front::RawExtendStreamFst
+                | Front::RawInsertNoisy
+                | Front::RawMixedBulk
         )
     }
 }
@@ -198,7 +217,19 @@ pub fn build_raw_counted(geom: Geom, ty: u64, kvs: &[Kv]) -> Result<(Vec<u8>, (u
 /// Builds the FST of `kvs` (strictly increasing keys) through `front`.
 /// `geom` is honoured by the raw front ends only. `Err` = error or panic.
 pub fn build(front: Front, geom: Geom, kvs: &[Kv]) -> Result<Vec<u8>, String> {
-    guard(|| build_inner(front, geom, kvs)).and_then(|x| x)
+    STRAY.with(|s| s.set(false));
+    let r = guard(|| build_inner(front, geom, kvs)).and_then(|x| x);
+    match r {
+        // whatever happens (error, panic) AFTER the builder accepted a call it
+        // must reject is a consequence of that (C06), not of the property at hand
+        Err(e) if STRAY.with(|s| s.get()) && !is_usage_skip(&e) => Err(format!("{} then: {}", USAGE_SKIP, e)),
+        r => r,
+    }
+}
+
+thread_local! {
+    /// Set as soon as a noisy build sees a must-be-rejected call accepted.
+    static STRAY: std::cell::Cell<bool> = std::cell::Cell::new(false);
 }
 
 fn build_inner(front: Front, geom: Geom, kvs: &[Kv]) -> Result<Vec<u8>, String> {
@@ -305,7 +336,186 @@ fn build_inner(front: Front, geom: Geom, kvs: &[Kv]) -> Result<Vec<u8>, String> 
             let m = e2s(raw::Fst::from_iter_map(kvs.iter().map(|(k, v)| (k, *v))))?;
             Ok(m.into_inner())
         }
+        Front::RawInsertNoisy | Front::MapInsertNoisy | Front::SetInsertNoisy => {
+            let kind = match front { Front::RawInsertNoisy => 0, Front::MapInsertNoisy => 1, _ => 2 };
+            let (bytes, _, stray) = noisy_build_inner(kind, geom, kvs, 31)?;
+            if let Some(what) = stray {
+                // a call that must be rejected was accepted: that violates the
+                // ordering contract (C06), and the accepted sequence is no longer
+                // `kvs`, so this build says nothing about the property at hand
+                return Err(format!("{} {}", USAGE_SKIP, what));
+            }
+            Ok(bytes)
+        }
+        Front::RawMixedBulk => {
+            let (n1, n2) = (kvs.len() / 3, 2 * kvs.len() / 3);
+            let mut b = e2s(raw_builder(w(), 0, geom))?;
+            for (k, v) in &kvs[..n1] {
+                e2s(b.insert(k, *v))?;
+            }
+            e2s(b.extend_iter(kvs[n1..n2].iter().map(|(k, v)| (k, Output::new(*v)))))?;
+            e2s(b.extend_stream(VecStream::new(&kvs[n2..])))?;
+            e2s(b.extend_stream(VecStream::new(&[])))?;
+            e2s(b.into_inner())
+        }
+        Front::MapMixedBulk => {
+            let (n1, n2) = (kvs.len() / 3, 2 * kvs.len() / 3);
+            let mut b = e2s(MapBuilder::new(w()))?;
+            e2s(b.extend_iter(kvs[..n1].iter().map(|(k, v)| (k, *v))))?;
+            e2s(b.extend_stream(VecStreamU64::new(&kvs[n1..n2])))?;
+            for (k, v) in &kvs[n2..] {
+                e2s(b.insert(k, *v))?;
+            }
+            e2s(b.extend_iter(std::iter::empty::<(&[u8], u64)>()))?;
+            e2s(b.into_inner())
+        }
+        Front::SetMixedBulk => {
+            // every bulk call starts with a repeat of the last accepted key
+            let (n1, n2) = (kvs.len() / 3, 2 * kvs.len() / 3);
+            let mut b = e2s(SetBuilder::new(w()))?;
+            for (k, _) in &kvs[..n1] {
+                e2s(b.insert(k))?;
+            }
+            let from = n1.saturating_sub(1);
+            e2s(b.extend_stream(VecStreamKeys::new(&kvs[from..n2])))?;
+            let from = n2.saturating_sub(1);
+            e2s(b.extend_iter(kvs[from..].iter().map(|(k, _)| k)))?;
+            if let Some(last) = kvs.last() {
+                let src = e2s(Set::from_iter(std::iter::once(&last.0)))?;
+                e2s(b.extend_stream(src.stream()))?;
+            }
+            e2s(b.into_inner())
+        }
     }
+}
+
+/// Prefix of the error returned by the noisy front ends when the builder
+/// accepted a call it must reject: callers skip such a build (it is C06's
+/// business) instead of reporting a violation of their own property.
+pub const USAGE_SKIP: &str = "usage-precondition:";
+
+pub fn is_usage_skip(e: &str) -> bool {
+    e.starts_with(USAGE_SKIP)
+}
+
+/// A builder kept in use after rejected calls. kind 0 = raw::Builder,
+/// 1 = MapBuilder, 2 = SetBuilder. Returns the bytes, the sequence of calls
+/// the builder ACCEPTED (by its own answers) and, if a call that must be
+/// rejected was accepted, a description of the first such call.
+pub fn noisy_build(kind: u8, geom: Geom, kvs: &[Kv], mask: u8) -> Result<(Vec<u8>, Vec<Kv>, Option<String>), String> {
+    guard(|| noisy_build_inner(kind, geom, kvs, mask)).and_then(|x| x)
+}
+
+fn noisy_build_inner(kind: u8, geom: Geom, kvs: &[Kv], mask: u8) -> Result<(Vec<u8>, Vec<Kv>, Option<String>), String> {
+    let w = || Vec::with_capacity(64);
+    let mut accepted: Vec<Kv> = vec![];
+    let mut stray: Option<String> = None;
+    // a call that must be rejected, under catch_unwind: a panic inside it is
+    // the builder misbehaving on a rejected call (C06), not a build failure
+    fn noise<F: FnOnce() -> bool>(f: F) -> Result<bool, String> {
+        match std::panic::catch_unwind(std::panic::AssertUnwindSafe(f)) {
+            Ok(b) => Ok(b),
+            Err(_) => {
+                STRAY.with(|s| s.set(true));
+                Err(format!("{} a call that must be rejected panicked", USAGE_SKIP))
+            }
+        }
+    }
+    let mut note = |accepted: &mut Vec<Kv>, stray: &mut Option<String>, what: &str, k: &[u8], v: u64, after: &[u8]| {
+        accepted.push((k.to_vec(), v));
+        STRAY.with(|s| s.set(true));
+        if stray.is_none() {
+            *stray = Some(format!("{}({}, {}) after {} was accepted", what, hexs(k), v, hexs(after)));
+        }
+    };
+    match kind {
+        0 => {
+            let mut b = e2s(raw_builder(w(), 0, geom))?;
+            for (i, (k, v)) in kvs.iter().enumerate() {
+                e2s(b.insert(k, *v))?;
+                accepted.push((k.clone(), *v));
+                for (rk, rv) in rejected_after(kvs, i, mask) {
+                    if noise(|| b.insert(&rk, rv).is_ok())? {
+                        note(&mut accepted, &mut stray, "raw insert", &rk, rv, k);
+                    }
+                }
+                if mask & 1 != 0 && noise(|| b.extend_iter(std::iter::once((k, Output::new(1)))).is_ok())? {
+                    note(&mut accepted, &mut stray, "raw extend_iter", k, 1, k);
+                }
+            }
+            Ok((e2s(b.into_inner())?, accepted, stray))
+        }
+        1 => {
+            let mut b = e2s(MapBuilder::new(w()))?;
+            for (i, (k, v)) in kvs.iter().enumerate() {
+                e2s(b.insert(k, *v))?;
+                accepted.push((k.clone(), *v));
+                for (rk, rv) in rejected_after(kvs, i, mask) {
+                    if noise(|| b.insert(&rk, rv).is_ok())? {
+                        note(&mut accepted, &mut stray, "MapBuilder::insert", &rk, rv, k);
+                    }
+                }
+                if mask & 1 != 0 && noise(|| b.extend_iter(std::iter::once((k, 1u64))).is_ok())? {
+                    note(&mut accepted, &mut stray, "MapBuilder::extend_iter", k, 1, k);
+                }
+                let one = [(k.clone(), 0u64)];
+                if mask & 1 != 0 && noise(|| b.extend_stream(VecStreamU64::new(&one)).is_ok())? {
+                    note(&mut accepted, &mut stray, "MapBuilder::extend_stream", k, 0, k);
+                }
+            }
+            Ok((e2s(b.into_inner())?, accepted, stray))
+        }
+        _ => {
+            let mut b = e2s(SetBuilder::new(w()))?;
+            for (i, (k, _)) in kvs.iter().enumerate() {
+                e2s(b.insert(k))?;
+                accepted.push((k.clone(), 0));
+                // repeats of the last key are no-ops for sets, in every entry point
+                e2s(b.insert(k))?;
+                e2s(b.extend_iter(std::iter::once(k)))?;
+                let one = [(k.clone(), 0u64)];
+                e2s(b.extend_stream(VecStreamKeys::new(&one)))?;
+                for (rk, _) in rejected_after(kvs, i, mask) {
+                    if &rk != k && noise(|| b.insert(&rk).is_ok())? {
+                        note(&mut accepted, &mut stray, "SetBuilder::insert", &rk, 0, k);
+                    }
+                }
+            }
+            Ok((e2s(b.into_inner())?, accepted, stray))
+        }
+    }
+}
+
+fn hexs(k: &[u8]) -> String {
+    k.iter().map(|b| format!("{:02x}", b)).collect()
+}
+
+/// Calls that must be rejected right after `kvs[i]` was accepted, selected by
+/// `mask`: 1 = the same key with zero / smaller / larger values; 2 = the
+/// previous key; 4 = the empty key; 8 = the key without its last byte;
+/// 16 = two keys with a smaller FIRST byte, in ascending order.
+fn rejected_after(kvs: &[Kv], i: usize, mask: u8) -> Vec<Kv> {
+    let (k, v) = &kvs[i];
+    let mut out: Vec<Kv> = vec![];
+    if mask & 1 != 0 {
+        out.extend([(k.clone(), 0), (k.clone(), v / 2), (k.clone(), v.wrapping_add(1)), (k.clone(), u64::MAX)]);
+    }
+    if mask & 2 != 0 && i > 0 {
+        out.push((kvs[i - 1].0.clone(), 7));
+    }
+    if !k.is_empty() {
+        if mask & 4 != 0 {
+            out.push((vec![], 1));
+        }
+        if mask & 8 != 0 {
+            out.push((k[..k.len() - 1].to_vec(), *v));
+        }
+        if mask & 16 != 0 && k[0] > 0 {
+            out.push((vec![k[0] - 1], 2));
+            out.push((vec![k[0] - 1, 0xff, 0xff], 3));
+        }
+    }
+    out
 }
 
 /// Splits a key sequence into the items at even and odd positions.
